@@ -1,23 +1,28 @@
 (** C05 — sessions, the scale law, and the expected maximum breeding value of homozygous lines.
 
-    - a problem object that is re-used (data re-assigned through its setters between calls) answers every call from the data
-      it holds AT THAT CALL: [run] folds a history of assignments and calls; the answer of a call is [latent] of the last
-      assignment before it, whatever happened earlier (this is what the lifecycle cases of the correspondence test against);
+    - a problem object that is re-used (data re-assigned through its setters or updated IN PLACE between calls) answers every
+      call from the data it holds AT THAT CALL: [run] folds a history of assignments, in-place updates and calls; the answer of
+      a call is [latent] of the data the history left, whatever happened earlier (this is what the lifecycle cases of the
+      correspondence test against).  In particular the targets of the PAU / MOGS problems may be overwritten in place: the
+      flags are computed from the array held (the former code cached them in the setter — refuted below on [old_..._stale]);
     - linear criteria are homogeneous of degree one in their table: scaling the table by any [a] scales the latent vector by
       [a], in every encoding (the exact power-of-two instances are what the scaled cases of the correspondence check);
     - the expected maximum breeding value of a line whose progeny all have the same breeding value b (a fully homozygous
       line) is b, whatever the numbers of replicates and progeny. *)
 From Coq Require Import PrimFloat Permutation.
-From PV Require Import Lib.Common Lib.FloatK Model.C05_Latent Model.C05_Factory Proofs.C05_Latent.
+From PV Require Import Lib.Common Lib.FloatK Model.C05_Latent Model.C05_Factory Proofs.C05_Latent Proofs.C05_Avail.
 Local Open Scope Q_scope.
 
 (** * sessions *)
-Inductive op := OSet (fd : fdata) | OCall (d : dec).
+(** [OSet fd]: new data through the property setters; [OUpd f]: the data held are updated in place (f = [set_targets tf'] for
+    a write into the target array; any other function of the data for a write into another array); [OCall d]: latentfn *)
+Inductive op := OSet (fd : fdata) | OUpd (f : fdata -> fdata) | OCall (d : dec).
 Definition step (n : nat) (st : fdata * list (option (list lv))) (o : op) : fdata * list (option (list lv)) :=
-  match o with OSet fd => (fd, snd st) | OCall d => (fst st, snd st ++ [latent n (fst st) d]) end.
+  match o with OSet fd => (fd, snd st) | OUpd f => (f (fst st), snd st) | OCall d => (fst st, snd st ++ [latent n (fst st) d]) end.
 Definition run (n : nat) (fd0 : fdata) (ops : list op) := fold_left (step n) ops (fd0, []).
-(** the data a history leaves in the object: the last assignment (the constructor's data if there is none) *)
-Definition last_set (fd0 : fdata) (ops : list op) : fdata := fold_left (fun fd o => match o with OSet f => f | OCall _ => fd end) ops fd0.
+(** the data a history leaves in the object: the last assignment (the constructor's data if there is none) with the in-place
+    updates made since *)
+Definition last_set (fd0 : fdata) (ops : list op) : fdata := fold_left (fun fd o => match o with OSet f => f | OUpd f => f fd | OCall _ => fd end) ops fd0.
 
 Lemma run_state n ops : forall fd0 acc, fst (fold_left (step n) ops (fd0, acc)) = last_set fd0 ops.
 Proof. induction ops as [|o ops IH]; intros fd0 acc; [reflexivity|]. destruct o; cbn; apply IH. Qed.
@@ -94,36 +99,36 @@ Proof.
   rewrite Z0 in P. unfold Qle in P; cbn in P; lia.
 Qed.
 
-(** * stale target flags after an in-place update of the target array (finding C05-tfreq-inplace-stale-flags) *)
-(** witness: two taxa (2,0) and (2,2), ploidy 2, weights 1, targets (1/2, 1/2) at the setter, first target overwritten in
-    place by 1: the first locus is fixed for the wanted allele, yet it is still reported unavailable (stale "heterozygous
-    target" flag), while the distance term already uses the new target *)
-Lemma tfreq_inplace_stale_refuted : exists pl G w tf_set tf_now p t s,
-  mogs_stale pl G w tf_set tf_now p t s <> mogs_pau_code pl G w tf_now p t s ++ pafd pl G w tf_now p t s /\
-  pau_stale pl G w tf_set tf_now p t s <> pau_code pl G w tf_now p t s.
+(** * in-place update of the target array (finding C05-tfreq-inplace-stale-flags, repaired) *)
+(** a call after the targets were overwritten in place answers for the data with the NEW targets, after any history *)
+Lemma tfreq_inplace_call n fd0 ops tf' d :
+  snd (run n fd0 (ops ++ [OUpd (set_targets tf'); OCall d])) = snd (run n fd0 ops) ++ [latent n (set_targets tf' (last_set fd0 ops)) d].
+Proof.
+  change (ops ++ [OUpd (set_targets tf'); OCall d]) with (ops ++ [OUpd (set_targets tf')] ++ [OCall d]). rewrite app_assoc, session_call.
+  unfold run, last_set. rewrite !fold_left_app. reflexivity.
+Qed.
+(** ... and that answer is the DEFINITION on the current targets, whatever the targets were when the setter ran (no relation
+    between [tf_set] and [tf_now] is assumed: the former guard "no target changes its class" is gone) *)
+Lemma mogs_inplace_is_definition n pl G w tf_set tf_now p t s : s <> [] -> (0 < popsize pl s <= 2^53)%Z -> geno_ok pl G s p ->
+  latent n (set_targets tf_now (FMogs pl G w tf_set p t)) (DSub s) = Some (map Ex (pau_def pl G w tf_now p t s ++ pafd pl G w tf_now p t s)).
+Proof.
+  intros Hs HN Hg. cbn [set_targets latent]. destruct s as [|i s]; [congruence|]. cbn [is_nil]. rewrite (mogs_pau_exact pl G w tf_now p t (i :: s) HN Hg). reflexivity.
+Qed.
+Lemma pau_inplace_is_definition n pl G w tf_set tf_now p t s : s <> [] -> (0 < popsize pl s <= 2^53)%Z -> geno_ok pl G s p -> targets_unit tf_now p t ->
+  latent n (set_targets tf_now (FPau pl G w tf_set p t)) (DSub s) = Some (map Ex (pau_def pl G w tf_now p t s)).
+Proof.
+  intros Hs HN Hg Ht. cbn [set_targets latent]. destruct s as [|i s]; [congruence|]. cbn [is_nil]. rewrite (pau_exact pl G w tf_now p t (i :: s) HN Hg Ht). reflexivity.
+Qed.
+(** regression witness about the FORMER code ([old_pau_stale] / [old_mogs_stale]: flags cached by the setter): two taxa (2,0)
+    and (2,2), ploidy 2, weights 1, targets (1/2, 1/2) at the setter, first target overwritten in place by 1: the first locus is
+    fixed for the wanted allele, yet it was still reported unavailable (stale "heterozygous target" flag), while the distance
+    term already used the new target *)
+Lemma old_tfreq_inplace_stale_refuted : exists pl G w tf_set tf_now p t s,
+  old_mogs_stale pl G w tf_set tf_now p t s <> mogs_pau_code pl G w tf_now p t s ++ pafd pl G w tf_now p t s /\
+  old_pau_stale pl G w tf_set tf_now p t s <> pau_code pl G w tf_now p t s /\
+  latent 2 (set_targets tf_now (FMogs pl G w tf_set p t)) (DSub s) = Some (map Ex (mogs_pau_code pl G w tf_now p t s ++ pafd pl G w tf_now p t s)) /\
+  latent 2 (set_targets tf_now (FPau pl G w tf_set p t)) (DSub s) = Some (map Ex (pau_code pl G w tf_now p t s)).
 Proof.
   exists 2%Z, [[2; 0]; [2; 2]]%Z, [[1]; [1]], [[1 # 2]; [1 # 2]], [[1]; [1 # 2]], 2%nat, 1%nat, [0; 1]%nat.
-  split; vm_compute; discriminate.
-Qed.
-(** exact guard: if the in-place update leaves every target in its class (<= 0, strictly between, >= 1 for MOGS; = 0,
-    strictly between, = 1 for PAU) the stored flags are still right and the result is the definition on the current targets *)
-Lemma wsum_flags_ext' w p t f g : (forall j q, (j < p)%nat -> (q < t)%nat -> f j q = g j q) -> wsum_flags w p t f = wsum_flags w p t g.
-Proof.
-  intros H. unfold wsum_flags. apply map_ext_in. intros q Hq. apply in_seq in Hq. unfold sumf. f_equal. apply map_ext_in. intros j Hj. apply in_seq in Hj.
-  rewrite H by lia. reflexivity.
-Qed.
-Lemma mogs_stale_partial pl G w tf_set tf_now p t s :
-  (forall j q, (j < p)%nat -> (q < t)%nat -> Qle_bool (mget tf_set j q) 0 = Qle_bool (mget tf_now j q) 0 /\ Qle_bool 1 (mget tf_set j q) = Qle_bool 1 (mget tf_now j q)) ->
-  mogs_stale pl G w tf_set tf_now p t s = mogs_pau_code pl G w tf_now p t s ++ pafd pl G w tf_now p t s.
-Proof.
-  intros H. unfold mogs_stale, mogs_pau_code. f_equal. apply wsum_flags_ext'. intros j q Hj Hq.
-  unfold mogs_unavail_code. destruct (H j q Hj Hq) as [-> ->]. reflexivity.
-Qed.
-Lemma pau_stale_partial pl G w tf_set tf_now p t s :
-  (forall j q, (j < p)%nat -> (q < t)%nat -> t_minor (mget tf_set j q) = t_minor (mget tf_now j q) /\ t_het (mget tf_set j q) = t_het (mget tf_now j q)
-                                            /\ t_major (mget tf_set j q) = t_major (mget tf_now j q)) ->
-  pau_stale pl G w tf_set tf_now p t s = pau_code pl G w tf_now p t s.
-Proof.
-  intros H. unfold pau_stale, pau_code. apply wsum_flags_ext'. intros j q Hj Hq.
-  unfold pau_unavail_code, pau_unavail_gen. destruct (H j q Hj Hq) as (-> & -> & ->). reflexivity.
+  split; [vm_compute; discriminate|]. split; [vm_compute; discriminate|]. split; reflexivity.
 Qed.
